@@ -373,7 +373,7 @@ func TestZZVerifC16Trace(t *testing.T) {
 			}
 
 			np := rng.Intn(6)
-			segs := []string{"dns-query", "dns-query", "dns-query", "..", ".", "", "other", "DNS-QUERY"}
+			segs := []string{"dns-query", "dns-query", "dns-query", "..", ".", "", "other", "DNS-QUERY", "dns-queryx", "dns-query-1", "adns-query", "dns-quer"}
 			for j := 0; j < np; j++ {
 				if rng.Intn(2) == 0 {
 					in.Path = append(in.Path, segs[rng.Intn(len(segs))])
